@@ -220,5 +220,9 @@ func TestVerif_C09Quality(t *testing.T) {
 			n++
 		}
 	}
+	// one large cache: 25 hot keys of cost 20 (half of a cache of 1000) after 1000 cheap one-off keys - on a small cache
+	// the few heavy hot keys get in through the random admission of warm candidates whatever the comparison does
+	vC09Run(tr, "heavyhot_c1000_h20", vC09Cfg{cap: 1000, kind: "hot", mixed: true, heavy: 20, hotFrac: 2, reqs: 20000}, 10070)
+	n++
 	vSummary(out, "c09.json", map[string]any{"runs": n, "events": tr.n})
 }
